@@ -203,6 +203,30 @@ func TestVerifRecorderFormat(t *testing.T) {
 type vIns struct {
 	effect bool
 	ok     bool
+	code   codes.Code // status code of an injected failure
+}
+
+// the gRPC status codes a failure is injected with (everything grpcError of the real NodehostAPI
+// can produce and a few more)
+var vCodes = map[string]codes.Code{
+	"NotFound": codes.NotFound, "Unavailable": codes.Unavailable, "DeadlineExceeded": codes.DeadlineExceeded,
+	"Canceled": codes.Canceled, "InvalidArgument": codes.InvalidArgument, "Unknown": codes.Unknown,
+	"Internal": codes.Internal, "ResourceExhausted": codes.ResourceExhausted, "Aborted": codes.Aborted,
+}
+
+func vCode(name string) codes.Code {
+	if c, ok := vCodes[name]; ok {
+		return c
+	}
+	return codes.Unavailable
+}
+
+// client session as kept by the register: dragonboat's at-most-once bookkeeping for a regular
+// state machine (internal/rsm session): a proposal whose series id already has a recorded response
+// is answered from that record and NOT applied again
+type vSession struct {
+	responses     map[uint64]uint64
+	respondedUpTo uint64
 }
 
 type vSrvOp struct {
@@ -226,7 +250,9 @@ type vH struct {
 	gates       []*vGate
 	reg         uint64
 	has         bool
-	failSession int32
+	failSession int32 // 0: no; 1+c: fail the next GetSession with status code c
+	sessions    map[uint64]*vSession
+	nextClient  uint64
 	shortRound  int32
 	handlers    int32 // server handlers currently blocked or running
 	stuck       int32 // waits that timed out in this case
@@ -316,10 +342,56 @@ func vPid(ctx context.Context) uint64 {
 
 func (s *vNodehost) GetSession(ctx context.Context, req *mr.SessionRequest) (*mr.Session, error) {
 	h := vCur.Load().(*vH)
-	if atomic.CompareAndSwapInt32(&h.failSession, 1, 0) {
-		return nil, status.Error(codes.Unavailable, "injected session failure")
+	if c := atomic.SwapInt32(&h.failSession, 0); c != 0 {
+		return nil, status.Error(codes.Code(c-1), "injected session failure")
 	}
-	return &mr.Session{ShardID: req.ShardId, ClientID: 1}, nil
+	// SyncGetSession: a fresh client id, registered with the state machine, ready for its first proposal
+	h.mu.Lock()
+	h.nextClient++
+	cid := 1000000 + h.nextClient
+	h.sessions[cid] = &vSession{responses: map[uint64]uint64{}}
+	h.mu.Unlock()
+	return &mr.Session{ShardID: req.ShardId, ClientID: cid, SeriesID: 1, RespondedTo: 0}, nil
+}
+
+func (s *vNodehost) CloseSession(ctx context.Context, cs *mr.Session) (*mr.SessionResponse, error) {
+	h := vCur.Load().(*vH)
+	if cs.SeriesID != 0 {
+		h.mu.Lock()
+		delete(h.sessions, cs.ClientID)
+		h.mu.Unlock()
+	}
+	return &mr.SessionResponse{Completed: true}, nil
+}
+
+// apply a proposal the way a dragonboat regular state machine does; caller holds h.mu.
+// returns (result, applied, accepted)
+func (h *vH) applyWrite(cs *mr.Session, value uint64) (uint64, bool, bool) {
+	if cs == nil || cs.SeriesID == 0 { // no-op session: always applied
+		h.reg, h.has = value, true
+		return 1, true, true
+	}
+	ss, ok := h.sessions[cs.ClientID]
+	if !ok {
+		return 0, false, false // unknown client: rejected
+	}
+	for k := range ss.responses { // clearTo(RespondedTo)
+		if k <= cs.RespondedTo {
+			delete(ss.responses, k)
+		}
+	}
+	if cs.RespondedTo > ss.respondedUpTo {
+		ss.respondedUpTo = cs.RespondedTo
+	}
+	if cs.SeriesID <= ss.respondedUpTo {
+		return 0, false, false // already responded to and forgotten: ignored
+	}
+	if r, ok := ss.responses[cs.SeriesID]; ok {
+		return r, false, true // at-most-once: answered from the recorded response, not applied
+	}
+	h.reg, h.has = value, true
+	ss.responses[cs.SeriesID] = 1
+	return 1, true, true
 }
 
 func (h *vH) hold(pid uint64, write bool, value uint64) vIns {
@@ -341,16 +413,31 @@ func (s *vNodehost) Propose(ctx context.Context, req *mr.RaftProposal) (*mr.Raft
 	value, _ := strconv.ParseUint(rec.Val, 10, 64)
 	ins := h.hold(pid, true, value)
 	defer atomic.AddInt32(&h.handlers, -1)
+	result := uint64(1)
 	if ins.effect {
 		h.mu.Lock()
-		h.reg, h.has = value, true
-		h.log = append(h.log, fmt.Sprintf("%d effect %d w %d", h.nEvents(), pid, value))
+		r, applied, accepted := h.applyWrite(req.Session, value)
+		cid, sid := uint64(0), uint64(0)
+		if req.Session != nil {
+			cid, sid = req.Session.ClientID, req.Session.SeriesID
+		}
+		if applied {
+			h.log = append(h.log, fmt.Sprintf("%d effect %d w %d", h.nEvents(), pid, value))
+		} else if accepted {
+			h.log = append(h.log, fmt.Sprintf("%d dedup %d w %d client=%d series=%d", h.nEvents(), pid, value, cid, sid))
+		} else {
+			h.log = append(h.log, fmt.Sprintf("%d rejected %d w %d client=%d series=%d", h.nEvents(), pid, value, cid, sid))
+		}
 		h.mu.Unlock()
+		result = r
+		if !accepted {
+			return nil, status.Error(codes.InvalidArgument, "session rejected")
+		}
 	}
 	if ins.ok {
-		return &mr.RaftResponse{Result: 1}, nil
+		return &mr.RaftResponse{Result: result}, nil
 	}
-	return nil, status.Error(codes.Unavailable, "injected failure")
+	return nil, status.Error(ins.code, "injected failure")
 }
 
 func (s *vNodehost) Read(ctx context.Context, req *mr.RaftReadIndex) (*mr.RaftResponse, error) {
@@ -372,7 +459,7 @@ func (s *vNodehost) Read(ctx context.Context, req *mr.RaftReadIndex) (*mr.RaftRe
 	if ins.ok {
 		return &mr.RaftResponse{Data: data}, nil
 	}
-	return nil, status.Error(codes.Unavailable, "injected failure")
+	return nil, status.Error(ins.code, "injected failure")
 }
 
 // --- client side interceptor, one per process
@@ -549,15 +636,22 @@ func (h *vH) run(cmds []string) {
 		case "S", "SH", "ST":
 			h.schedule(f[0])
 		case "FS":
-			atomic.StoreInt32(&h.failSession, 1)
-		case "R": // R:i:mode   mode = ok | err | erreff (error reply after the effect)
+			code := codes.Unavailable
+			if len(f) > 1 {
+				code = vCode(f[1])
+			}
+			atomic.StoreInt32(&h.failSession, int32(code)+1)
+		case "R": // R:i:mode[:code]   mode = ok | err | erreff (error reply after the effect); code = gRPC status of the error
 			i, _ := strconv.Atoi(f[1])
 			op := h.takeSrv(i)
 			if op == nil {
 				continue
 			}
 			waiting := h.clientWaiting(op)
-			ins := vIns{effect: f[2] != "err", ok: f[2] == "ok"}
+			ins := vIns{effect: f[2] != "err", ok: f[2] == "ok", code: codes.Unavailable}
+			if len(f) > 3 {
+				ins.code = vCode(f[3])
+			}
 			h.logf("release %d %s", op.pid, f[2])
 			op.release <- ins
 			if waiting {
@@ -608,7 +702,7 @@ func (h *vH) run(cmds []string) {
 		if op := h.takeSrv(0); op != nil {
 			waiting := h.clientWaiting(op)
 			h.logf("release %d %s", op.pid, map[bool]string{true: "ok", false: "drop"}[waiting])
-			op.release <- vIns{effect: waiting, ok: waiting}
+			op.release <- vIns{effect: waiting, ok: waiting, code: codes.Unavailable}
 			if waiting {
 				pid := op.pid
 				vWait(15*time.Second, func() bool { return h.atGate(pid) })
@@ -700,7 +794,7 @@ func TestVerifRecorderProto(t *testing.T) {
 			}()
 			rand.Seed(seed)
 			c := NewCoordinator(context.Background(), np, 1, []string{addr})
-			h = &vH{c: c}
+			h = &vH{c: c, sessions: map[uint64]*vSession{}}
 			vCur.Store(h)
 			for _, p := range c.processes {
 				pid := p.id
